@@ -16,7 +16,7 @@ use std::io::Cursor;
 
 pub const META: PropMeta = PropMeta {
     level: "fault_enumeration",
-    rule: "crash points = every cut position 0..len of: reference-encoded movies in every layout (moov first, mdat first, several tracks, fragmented single stream, with iTunes metadata), seed-dependent generated movies, a media segment opened against its intact init segment, and the canned minimal.mp4 / minimal_init.mp4 / minimal_fragment.m4s (thorough: more and larger files). For each prefix, given with its own length: read_header (or read_fragment_header) returns Err or Ok; if Ok, every (track, sample id) of the complete file is read: Err is fine, Ok(None) only beyond the truncated reader's own sample count, Ok(sample) must equal the complete file's sample in bytes, start time, duration and rendering offset. No panic, no exhaustion of the stream-operation budget (hang). Sample payloads are non-zero patterns. Non-trivial = 0 < cut < len and the cut is not on a top-level box boundary. Distinct = (file, cut).",
+    rule: "crash points = every cut position 0..len of: reference-encoded movies in every layout (moov first, mdat first, several tracks, fragmented single stream, with iTunes metadata), movie-header-last files in which every leaf box of moov in turn is the last box of the file (cuts inside that box), files with samples above 64 KiB (cuts around sample boundaries and 64 KiB marks), seed-dependent generated movies, a media segment opened against its intact init segment, and the canned minimal.mp4 / minimal_init.mp4 / minimal_fragment.m4s (thorough: more and larger files). For each prefix, given with its own length: read_header (or read_fragment_header) returns Err or Ok; if Ok, every (track, sample id) of the complete file is read: Err is fine, Ok(None) only beyond the truncated reader's own sample count, Ok(sample) must equal the complete file's sample in bytes, start time, duration and rendering offset. No panic, no exhaustion of the stream-operation budget (hang). Sample payloads are non-zero patterns. Non-trivial = 0 < cut < len and the cut is not on a top-level box boundary. Distinct = (file, cut).",
     assumptions: &["baseline = what the library reads from the complete file (its correctness is C03/C09's subject)"],
 };
 
